@@ -377,6 +377,9 @@ func runWaitersCase(ctx *Ctx, specs [][2]interface{}, script []string) {
 		if c.failed {
 			break
 		}
+		// every script step calls into the real store from this goroutine: one that does not come back within the
+		// watchdog's limit (a wedged mutex) ends the run with `mon HANG` instead of hanging the check
+		ctx.R.Enter()
 		f := strings.Fields(line)
 		switch f[0] {
 		case "start":
@@ -602,6 +605,8 @@ func runWaitersCase(ctx *Ctx, specs [][2]interface{}, script []string) {
 			c.settle()
 		}
 	}
+	ctx.R.Enter() // (the end phase talks to the store as well)
+	defer ctx.R.Leave()
 	// cancel whoever is still waiting; then no bookkeeping may be left (C07)
 	for i := range c.waiters {
 		if !c.failed {
